@@ -112,9 +112,9 @@ Proof.
     assert (Hl' : cs_list s' = cs_list s ++ [x]) by reflexivity.
     assert (Hnum' : cs_num s' = cs_num s + 1) by (unfold cs_num; rewrite Hl', app_length; cbn; lia).
     assert (Hsum' : sumvax (cs_list s') = sumvax (cs_list s) + vax x) by (rewrite Hl', sumva_app; cbn; lia).
-    destruct Hok' as [Hv' Ha']. unfold wx in Hv' at 1. unfold wx in Ha' at 1.
+    destruct (proj1 (cs_ok_wx _) Hok') as [Hv' Ha'].
     assert (Hinv' : ext_inv maxin mc minavg target s').
-    { split; [split; assumption|]. split; [rewrite Hl', app_length; cbn; lia|]. split; [lia|].
+    { split; [exact Hok'|]. split; [rewrite Hl', app_length; cbn; lia|]. split; [lia|].
       split; [rewrite <- Hv'; exact Esat|]. split; [|lia].
       rewrite Ha' in Eavg. apply quot_ge_mul; [lia|unfold cs_num in *; lia|lia]. }
     destruct (IH s' Ht Hinv') as (Hi & sub & rest & Hl & Hp). split; [exact Hi|].
@@ -125,6 +125,11 @@ Qed.
 (* ---------- the top-up loop ---------- *)
 Lemma new_coinset_num hi : cs_num (new_coinset wx hi) = Z.of_nat (length hi).
 Proof. unfold cs_num. rewrite new_coinset_list. reflexivity. Qed.
+
+Lemma new_coinset_tv hi : cs_tv (new_coinset wx hi) = sumv hi.
+Proof. destruct (new_coinset_ok wx wx_ok hi) as [Hv _]. rewrite new_coinset_list in Hv. exact Hv. Qed.
+Lemma new_coinset_tva hi : cs_tva (new_coinset wx hi) = sumvax hi.
+Proof. destruct (new_coinset_ok wx wx_ok hi) as [_ Hv]. rewrite new_coinset_list in Hv. exact Hv. Qed.
 
 Lemma topup_some rec maxin mc minavg target cutoff low hi : forall k numlow r,
   hi <> [] ->
@@ -141,15 +146,17 @@ Proof.
   assert (Hh : 1 <= Z.of_nat (length hi)) by (destruct hi; [congruence|cbn [length]; lia]).
   rewrite new_coinset_num in H.
   replace (Z.of_nat (length hi) + numlow >? numlow) with true in H by lia.
-  destruct (new_coinset_ok wx wx_ok hi) as [Hv _]. rewrite new_coinset_list in Hv. unfold wx in Hv at 1.
-  unfold wx in H at 2. rewrite Hv in H.
+  change (wx (target - cs_tv (new_coinset wx hi))) with (target - cs_tv (new_coinset wx hi)) in H.
+  rewrite new_coinset_tv in H.
   destruct (rec numlow mc (new_minavg wx minavg (new_coinset wx hi) numlow) (target - sumv hi) low) as [br rr] eqn:Erec.
   destruct rr as [lowsel|e|p].
-  - injection H as <-. right. exists numlow, br, lowsel. repeat split; try lia. exact Erec.
-  - destruct br; try (injection H as <-; left; eexists; reflexivity);
-      (apply IH in H; [|exact Hne]; destruct H as [H|(nl & br' & ls & H1 & H2 & H3 & H4)]; [left; exact H|];
-       right; exists nl, br', ls; repeat split; try assumption; lia).
-  - left. destruct br; injection H as <-; eexists; reflexivity.
+  - assert (Hr : Some (BrTopUp br, Ok (fold_left (fun s c => push wx c s) (cs_list lowsel) (new_coinset wx hi))) = Some r)
+      by (destruct br; exact H).
+    injection Hr as <-. right. exists numlow, br, lowsel. repeat split; try lia. exact Erec.
+  - assert (Hr : topup wx rec maxin mc minavg target cutoff low hi k (numlow + 1) = Some r) by (destruct br; exact H).
+    apply IH in Hr; [|exact Hne]. destruct Hr as [Hr|(nl & br' & ls & H1 & H2 & H3 & H4)]; [left; exact Hr|].
+    right; exists nl, br', ls; repeat split; try assumption; lia.
+  - left. exists p. destruct br; injection H as <-; reflexivity.
 Qed.
 
 Lemma topup_valid maxin mc minavg target low hi nl lowsel :
@@ -171,13 +178,13 @@ Proof.
   { rewrite Hn, Hl, sumva_app.
     pose proof (new_minavg_ceil minavg (new_coinset wx hi) nl ltac:(lia)) as Hceil.
     rewrite new_coinset_num in Hceil.
-    destruct (new_coinset_ok wx wx_ok hi) as [_ Ha]. rewrite new_coinset_list in Ha. unfold wx in Ha at 1. rewrite Ha in Hceil.
+    rewrite new_coinset_tva in Hceil.
     eapply combine_average with (nl := nl) (A := new_minavg wx minavg (new_coinset wx hi) nl); try eassumption; try lia.
     unfold cs_num in *. lia. }
   assert (Hnn : 0 <= sumvax (cs_list s)).
   { rewrite Hl, sumva_app. apply sumva_nonneg in Hhi0. pose proof (sumva_nonneg wx _ (Forall_sub _ _ _ Hsub Hlow0)). lia. }
   split; [|split; [exact Hmul|]].
-  - unfold valid_selection. destruct Hok as [Hv Ha]. unfold wx in Hv at 1. unfold wx in Ha at 1.
+  - unfold valid_selection. destruct (proj1 (cs_ok_wx _) Hok) as [Hv Ha].
     split; [|split; [|split; [|split; [|split]]]]; try assumption.
     + destruct Hsub as [rest Hp]. exists rest. rewrite Hl, <- app_assoc, Hp. apply Permutation_app_comm.
     + rewrite Hl, app_length. lia.
@@ -233,7 +240,7 @@ Section MinPrio.
         split; [exact Hlen|]. split; [exact Hnum|]. split; [apply sat_iff, Htgt|].
         split; [apply sumva_ge, (Forall_sub _ _ _ Hsub Hhi')|apply sumva_nonneg, (Forall_sub _ _ _ Hsub Hhi0')]. }
       destruct (extend_spec maxin mc minavg target low s0 Hlow0 Hinv0) as ((Hok & Hlen' & Hnum' & Hsat' & Havg' & Hnn') & sub & rl & Hl & Hp).
-      destruct Hok as [Hv Ha]. unfold wx in Hv at 1. unfold wx in Ha at 1.
+      destruct (proj1 (cs_ok_wx _) Hok) as [Hv Ha].
       split; [|split; [exact Havg'|]].
       + split; [|split; [|split; [|split; [|split]]]]; try assumption.
         * destruct Hsub as [r1 Hp1]. exists (r1 ++ rl ++ rest). rewrite Hl, Hl0. apply perm_blocks; assumption.
@@ -241,10 +248,10 @@ Section MinPrio.
       + apply quot_ge_mul; [exact Hnn'|unfold cs_num; lia|exact Havg'].
     - destruct (topup wx rec maxin mc minavg target (Z.of_nat (length low)) low hi (Z.to_nat (Z.of_nat (length low))) 1) as [r|] eqn:Et.
       + eapply Htop; [reflexivity|exact H].
-      + rewrite <- app_assoc. apply IH; try assumption; rewrite <- app_assoc; assumption.
+      + apply (IH hi br s); assumption.
     - destruct (topup wx rec maxin mc minavg target (Z.of_nat (length low)) low hi (Z.to_nat (Z.of_nat (length low))) 1) as [r|] eqn:Et.
       + eapply Htop; [reflexivity|exact H].
-      + rewrite <- app_assoc. apply IH; try assumption; rewrite <- app_assoc; assumption.
+      + apply (IH hi br s); assumption.
   Qed.
 
   Theorem minprio_valid_fuel : forall fuel maxin mc minavg target coins br s,
@@ -277,3 +284,155 @@ Section MinPrio.
     mp_valid maxin mc minavg target coins s.
   Proof. apply minprio_valid_fuel. Qed.
 End MinPrio.
+
+(* ---------- termination: the fuel of min_priority_sel suffices, and nothing panics ---------- *)
+Definition no_panic (r : branch * res coinset) : Prop := match snd r with Panic _ => False | _ => True end.
+
+Lemma topup_no_panic rec maxin mc minavg target cutoff low hi :
+  (forall a b c d, no_panic (rec a b c d low)) ->
+  forall k numlow r, topup wx rec maxin mc minavg target cutoff low hi k numlow = Some r -> no_panic r.
+Proof.
+  intros Hrec. induction k as [|k IH]; intros numlow r H; cbn [topup] in H; [discriminate|].
+  destruct ((numlow <=? cutoff) && _); [|discriminate].
+  match type of H with context [rec ?a ?b ?c ?d low] => specialize (Hrec a b c d); destruct (rec a b c d low) as [br rr] end.
+  destruct rr as [ls|e|p]; cbn in Hrec.
+  - assert (Hr : exists x, r = (BrTopUp br, Ok x)) by (destruct br; injection H as <-; eexists; reflexivity).
+    destruct Hr as [x ->]. exact I.
+  - apply (IH (numlow + 1)). destruct br; exact H.
+  - destruct Hrec.
+Qed.
+
+Section Fuel.
+  Variable sort_by : (coin -> coin -> bool) -> list coin -> list coin.
+  Hypothesis Hsort : sort_spec sort_by.
+
+  Lemma outer_no_panic rec maxin mc minavg target cutoff low :
+    (forall a b c d, no_panic (rec a b c d low)) ->
+    forall rest hi_acc, no_panic (outer wx sort_by rec maxin mc minavg target cutoff low hi_acc rest).
+  Proof.
+    intros Hrec. induction rest as [|x rest IH]; intros hi_acc; cbn [outer]; [exact I|].
+    destruct (min_number wx sort_by maxin mc target (hi_acc ++ [x])); [exact I| |];
+      (destruct (topup wx rec maxin mc minavg target cutoff low (hi_acc ++ [x]) (Z.to_nat cutoff) 1) as [r|] eqn:Et;
+       [eapply topup_no_panic; eassumption|apply IH]).
+  Qed.
+
+  Theorem minprio_fuel_suffices : forall fuel maxin mc minavg target coins,
+    (length coins < fuel)%nat -> no_panic (min_priority wx sort_by fuel maxin mc minavg target coins).
+  Proof.
+    induction fuel as [|fuel IH]; intros maxin mc minavg target coins Hf; [lia|]. cbn [min_priority].
+    destruct (Hsort (less_va wx) coins) as [Hp _]. set (pc := sort_by (less_va wx) coins) in *.
+    destruct (find_cutoff wx minavg pc 0) as [c|] eqn:Ec; [|exact I].
+    apply find_cutoff_spec in Ec as (n & x & -> & Hn & _). cbn [Nat.add].
+    apply outer_no_panic. intros a b c d. apply IH.
+    assert (n < length pc)%nat by (apply nth_error_Some; congruence).
+    rewrite firstn_length. rewrite (Permutation_length Hp) in H. lia.
+  Qed.
+
+  Theorem minprio_no_panic maxin mc minavg target coins :
+    no_panic (min_priority_sel wx sort_by maxin mc minavg target coins).
+  Proof. apply minprio_fuel_suffices. lia. Qed.
+End Fuel.
+
+(* ---------- the old algorithm: the three clauses are refuted (DESIGN section 7, rows 15a-c) ---------- *)
+Definition mk (l : list (Z * Z)) : list coin :=
+  map (fun '(i, (v, c)) => mkCoin (N.of_nat i) v c) (combine (seq 0 (length l)) l).
+
+Definition w15a := mk [(3,2);(5,0);(5,3);(1,2);(0,1)].   (* target 8, MaxInputs 1, minChange 1, minAvg 9 *)
+Definition w15b := mk [(3,3);(1,2);(5,2)].               (* target 3, MaxInputs 2, minChange 2, minAvg 3 *)
+Definition w15c := mk [(2,0);(3,1);(5,3);(4,3);(2,1)].   (* target 11, MaxInputs 4, minChange 1, minAvg 5 *)
+Definition w15d := mk [(5,0);(3,2);(3,0);(1,2)].         (* target 9, MaxInputs 3, minChange 1, minAvg 3 *)
+
+Definition good_input (coins : list coin) : Prop :=
+  Forall (fun c => 0 <= cval c /\ 0 <= cconfs c) coins /\ NoDup (map cid coins).
+
+Ltac good := split; [repeat constructor; cbn; lia | cbn; repeat constructor; cbn; intuition discriminate].
+
+(* pinned code: more than MaxInputs coins *)
+Theorem minprio_maxinputs_old_refuted :
+  exists maxin mc minavg target coins br s,
+    good_input coins /\ min_priority_old wx isort maxin mc minavg target coins = (br, Ok s) /\ cs_num s > maxin.
+Proof.
+  exists 1, 1, 9, 8, w15a, (BrTopUp BrExtend). eexists. split; [good|]. split; [vm_compute; reflexivity|]. vm_compute. reflexivity.
+Qed.
+
+(* pinned code: total neither the target nor target + minChange or more *)
+Theorem minprio_target_old_refuted :
+  exists maxin mc minavg target coins br s,
+    good_input coins /\ min_priority_old wx isort maxin mc minavg target coins = (br, Ok s)
+    /\ sat target mc (sumv (cs_list s)) = false.
+Proof.
+  exists 2, 2, 3, 3, w15b, BrExtend. eexists. split; [good|]. split; [vm_compute; reflexivity|]. vm_compute. reflexivity.
+Qed.
+
+(* pinned code: the average value-age per input is below the requirement *)
+Theorem minprio_average_old_refuted :
+  exists maxin mc minavg target coins br s,
+    good_input coins /\ min_priority_old wx isort maxin mc minavg target coins = (br, Ok s)
+    /\ minavg * cs_num s > sumvax (cs_list s) /\ Z.quot (sumvax (cs_list s)) (cs_num s) < minavg.
+Proof.
+  exists 4, 1, 5, 11, w15c, (BrTopUp (BrTopUp BrExtend)). eexists. split; [good|]. split; [vm_compute; reflexivity|].
+  split; vm_compute; reflexivity.
+Qed.
+
+(* each repair is necessary on its own: with only that one reverted the clause fails again
+   (these are the three seeded reverts) *)
+Theorem minprio_revert_bound_refuted :
+  exists maxin mc minavg target coins br s,
+    good_input coins
+    /\ min_priority_fx wx isort (mkFixes false true true) (S (length coins)) maxin mc minavg target coins = (br, Ok s)
+    /\ cs_num s > maxin.
+Proof.
+  exists 1, 1, 9, 8, w15a, (BrTopUp BrExtend). eexists. split; [good|]. split; [vm_compute; reflexivity|]. vm_compute. reflexivity.
+Qed.
+
+Theorem minprio_revert_target_refuted :
+  exists maxin mc minavg target coins br s,
+    good_input coins
+    /\ min_priority_fx wx isort (mkFixes true false true) (S (length coins)) maxin mc minavg target coins = (br, Ok s)
+    /\ sat target mc (sumv (cs_list s)) = false.
+Proof.
+  exists 2, 2, 3, 3, w15b, BrExtend. eexists. split; [good|]. split; [vm_compute; reflexivity|]. vm_compute. reflexivity.
+Qed.
+
+Theorem minprio_revert_round_refuted :
+  exists maxin mc minavg target coins br s,
+    good_input coins
+    /\ min_priority_fx wx isort (mkFixes true true false) (S (length coins)) maxin mc minavg target coins = (br, Ok s)
+    /\ minavg * cs_num s > sumvax (cs_list s).
+Proof.
+  exists 3, 1, 3, 9, w15d, (BrTopUp (BrTopUp BrExtend)). eexists. split; [good|]. split; [vm_compute; reflexivity|]. vm_compute. reflexivity.
+Qed.
+
+(* with all three repairs the old-code model is the current one *)
+Lemma extend_old_all mx mc ma tg lows s :
+  extend_old wx (mkFixes true true true) mx mc ma tg lows s = extend wx mx mc ma tg lows s.
+Proof. revert s; induction lows as [|x t IH]; intros s; cbn [extend extend_old fx_target andb]; [reflexivity|]. rewrite !IH. reflexivity. Qed.
+
+Lemma topup_old_all rec rec' mx mc ma tg cutoff low hi :
+  (forall a b c d, rec a b c d low = rec' a b c d low) ->
+  forall k nl, topup_old wx (mkFixes true true true) rec mx mc ma tg cutoff low hi k nl = topup wx rec' mx mc ma tg cutoff low hi k nl.
+Proof.
+  intros Hrec. induction k as [|k IH]; intros nl; cbn [topup topup_old fx_bound]; [reflexivity|].
+  destruct ((nl <=? cutoff) && _); [|reflexivity].
+  unfold new_minavg_old. cbn [fx_round]. rewrite Hrec.
+  match goal with |- context [rec' ?a ?b ?c ?d low] => destruct (rec' a b c d low) as [br rr] end.
+  destruct rr; [reflexivity| |reflexivity]. destruct br; apply IH.
+Qed.
+
+Lemma outer_old_all sort_by rec rec' mx mc ma tg cutoff low :
+  (forall a b c d, rec a b c d low = rec' a b c d low) ->
+  forall rest hi, outer_old wx sort_by (mkFixes true true true) rec mx mc ma tg cutoff low hi rest
+                  = outer wx sort_by rec' mx mc ma tg cutoff low hi rest.
+Proof.
+  intros Hrec. induction rest as [|x rest IH]; intros hi; cbn [outer outer_old]; [reflexivity|].
+  rewrite (topup_old_all rec rec' mx mc ma tg cutoff low (hi ++ [x]) Hrec), IH.
+  destruct (min_number wx sort_by mx mc tg (hi ++ [x])); [rewrite extend_old_all|..]; reflexivity.
+Qed.
+
+Theorem min_priority_fx_all sort_by : forall fuel mx mc ma tg coins,
+  min_priority_fx wx sort_by (mkFixes true true true) fuel mx mc ma tg coins = min_priority wx sort_by fuel mx mc ma tg coins.
+Proof.
+  induction fuel as [|fuel IH]; intros; cbn [min_priority min_priority_fx]; [reflexivity|].
+  destruct (find_cutoff wx ma (sort_by (less_va wx) coins) 0); [|reflexivity].
+  apply outer_old_all. intros. apply IH.
+Qed.
